@@ -1,3 +1,4 @@
+import asyncio
 import inspect
 import weakref
 
@@ -68,6 +69,14 @@ class sink(Sink):
     def update(self, x, who=None, metadata=None):
         result = self.func(x, *self.args, **self.kwargs)
         if gen.isawaitable(result):
+            if not gen.is_future(result):
+                # a native coroutine starts only once somebody schedules it: do
+                # that here, so that the consumer handles its elements in the
+                # order in which it was called, whichever caller awaits first
+                loop = getattr(self.loop, 'asyncio_loop', None)
+                if loop is not None:
+                    result = asyncio.ensure_future(result, loop=loop)
+                # (a pipeline without a loop leaves scheduling to the caller)
             if metadata:
                 # hold the references until the awaitable has finished
                 self._retain_refs(metadata)
